@@ -3,19 +3,21 @@ C04 at service level — "Crash at any instant: survivor cleanup restores a clea
 `create` of a publish-subscribe service (model Iox2/Model/ServiceCrash.lean, one step per system call, compared with strace of
 the real calls and with SIGKILL at every system call by checklib/pC04svc.py).
 
-The experiment (`creatorScenario root fuseV fuseC`): the victim — a process with a living node — runs `create`; its fuse is the
+The experiment (`creatorScenario fuseV fuseC`): the victim — a process with a living node — runs `create`; its fuse is the
 number of steps it completes before it dies (`none`, or a fuse larger than the program: it finishes and lives on).  Survivor 1
-runs Node::list + try_remove_stale_resources (with an own fuse: second crash inside the clean-up); a survivor that spins for
-ever is killed; survivor 2 runs a complete clean-up; then a living node creates the same name again.
+runs Node::list + try_remove_stale_resources (with an own fuse: second crash inside the clean-up); survivor 2 runs a complete
+clean-up; then a living node creates the same name again.
 
 Steps of the creator, numbered from 0 (k = number of completed steps at the moment of death):
  0 access static · 1 creat stag · 2 fchmod stag init · 3 write stag · 4 fsync stag · 5 fchmod stag final · 6 mkdir services ·
  7 creat static · 8 fchmod static init · 9 write static · 10 fsync static · 11 fchmod static final · 12 creat dyn · 13 ftruncate dyn ·
  14 fstat dyn · 15 mmap dyn · 16 mem:init dyn · 17 mem:register node · 18 mem:version dyn · 19 fchmod dyn final      (20 = create returned)
 
-The property's statement is FALSE at the crash points 2‥5 (service tag still carries its creation permission), 8‥11 (static config
-still locked) and — for survivors with uid 0 — 13 (dynamic config created but not yet sized); it is true at all others
-(`crash_anywhere_cleanup_restores_partial`, an equivalence).
+The property's statement is FALSE at the crash points 2‥5 (service tag still carries its creation permission) and 8‥11 (static config
+still locked); it is true at all others (`crash_anywhere_cleanup_restores_partial`, an equivalence).  Crash point 13 (dynamic config
+created but not yet sized) was a third refuted window for survivors with uid 0 — every clean-up span for ever — until fix 150ae1b in
+/repo (posix_shared_memory.rs open_impl: a zero-sized object honours the timeout); the model follows the repaired code, the scenario is a
+regression replay in checklib/pC04svc.py.
 -/
 import Iox2.Proof.ServiceCrash
 import Iox2.Proof.ServiceCrashSolo
@@ -34,7 +36,7 @@ def crashPoint : Option Nat → Option Nat
 def allThere : Left := { static := .final, dyn := .final, tag := .final, node := true, dir := true }
 
 /-- the complete table: what the survivors see, report and leave behind, and the result of the re-creation, by crash point -/
-def expected (root : Bool) : Option Nat → Outcome
+def expected : Option Nat → Outcome
   | none => ⟨some .ok, false, allThere, some .notDead, some .notDead, allThere, allThere, some .alreadyExists⟩
   | some k =>
     let nodeOnly : Left := { Left.none with node := true, dir := true }
@@ -48,30 +50,28 @@ def expected (root : Bool) : Option Nat → Outcome
       ⟨none, true, { nodeOnly with tag := .final, static := .locked }, some .ok, some .notDead, l, l, some .alreadyExists⟩
     else if k = 12 then ⟨none, true, { nodeOnly with tag := .final, static := .final }, some .ok, some .notDead, Left.none, Left.none, some .ok⟩
     else if k = 13 then
-      let l := { nodeOnly with tag := .final, static := .final, dyn := .created }
-      if root then ⟨none, true, l, none, none, l, l, some .alreadyExists⟩
-      else ⟨none, true, l, some .ok, some .notDead, Left.none, Left.none, some .ok⟩
+      ⟨none, true, { nodeOnly with tag := .final, static := .final, dyn := .created }, some .ok, some .notDead, Left.none, Left.none, some .ok⟩
     else if k ≤ 19 then
       ⟨none, true, { nodeOnly with tag := .final, static := .final, dyn := .sized }, some .ok, some .notDead, Left.none, Left.none, some .ok⟩
     else ⟨some .ok, true, allThere, some .ok, some .notDead, Left.none, Left.none, some .ok⟩
 
-theorem creator_kill_table_bounded : ∀ root, ∀ k, k ≤ fuel → creatorScenario root (some k) none = expected root (crashPoint (some k)) := by
-  intro root; cases root <;> decide +kernel
+theorem creator_kill_table_bounded : ∀ k, k ≤ fuel → creatorScenario (some k) none = expected (crashPoint (some k)) := by
+  decide +kernel
 
-/-- THE TABLE, for every fuse of the victim (every crash point, and no crash) and both permission regimes of the survivors -/
-theorem creator_kill_table (root : Bool) (f : Option Nat) :
-    creatorScenario root f none = expected root (crashPoint f) := by
+/-- THE TABLE, for every fuse of the victim (every crash point, and no crash) -/
+theorem creator_kill_table (f : Option Nat) :
+    creatorScenario f none = expected (crashPoint f) := by
   cases f with
-  | none => cases root <;> decide
+  | none => decide
   | some k =>
     by_cases hk : k ≤ fuel
-    · exact creator_kill_table_bounded root k hk
-    · have h1 : creatorScenario root (some k) none = creatorScenario root none none :=
+    · exact creator_kill_table_bounded k hk
+    · have h1 : creatorScenario (some k) none = creatorScenario none none :=
         scenario_big_fuse _ _ k none false (by omega)
       have h2 : crashPoint (some k) = none := by
         have : ¬ k ≤ createLen := by simp only [fuel, createLen] at *; omega
         simp [crashPoint, this]
-      rw [h1, h2]; cases root <;> decide
+      rw [h1, h2]; decide
 
 /-! ### the property -/
 
@@ -84,49 +84,46 @@ instance (o : Outcome) : Decidable (Restored o) := by unfold Restored; infer_ins
 
 /-
 FALSE as stated (C04 at full strength):
-  theorem crash_anywhere_cleanup_restores (root : Bool) (f : Option Nat) :
-      (creatorScenario root f none).dead = true → Restored (creatorScenario root f none)
+  theorem crash_anywhere_cleanup_restores (f : Option Nat) :
+      (creatorScenario f none).dead = true → Restored (creatorScenario f none)
 -/
 
 /-- refutation 1 (D26 at service level): killed between `open(O_CREAT|O_EXCL, 0600)` and `fchmod(0400)` of the SERVICE TAG; the tag is
 invisible to the listing, `rmdir` of the node directory fails, the cleaner abandons: the dead node stays for ever (the name is usable) -/
 theorem crash_in_service_tag_creation_not_restored :
-    ∀ root, ∀ k, k ≤ 5 → 2 ≤ k →
-      let o := creatorScenario root (some k) none
+    ∀ k, k ≤ 5 → 2 ≤ k →
+      let o := creatorScenario (some k) none
       o.dead = true ∧ ¬ Restored o ∧ o.clean1 = some .internalError ∧ o.clean2 = some .internalError ∧
       o.after = { Left.none with tag := .init, node := true, dir := true } ∧ o.recreate = some .ok := by
-  intro root; cases root <;> decide
+  decide
 
 /-- refutation 2: killed between `open(O_CREAT|O_EXCL, 0600)` and `fchmod(0400)` of the STATIC CONFIG; the clean-up treats the locked
 file as a non-existing service (read_static_service_config ⇒ Ok(None)), removes only the tag and reports success; the locked static
 config stays for ever and the name can never be created again -/
 theorem crash_with_locked_static_config_not_restored :
-    ∀ root, ∀ k, k ≤ 11 → 8 ≤ k →
-      let o := creatorScenario root (some k) none
+    ∀ k, k ≤ 11 → 8 ≤ k →
+      let o := creatorScenario (some k) none
       o.dead = true ∧ ¬ Restored o ∧ o.clean1 = some .ok ∧ o.after = { Left.none with static := .locked } ∧
       o.recreate = some .alreadyExists := by
-  intro root; cases root <;> decide
-
-/-- refutation 3 (uid 0): killed between `shm_open(O_CREAT|O_EXCL, 0200)` and `ftruncate` of the DYNAMIC CONFIG; root can open the 0200
-object, its size is 0, and `open_impl` retries without any time-out check: every clean-up of the dead node spins for ever, nothing
-is removed, the name is taken for ever -/
-theorem crash_before_dynamic_config_sized_cleanup_spins :
-    let o := creatorScenario true (some 13) none
-    o.dead = true ∧ ¬ Restored o ∧ o.clean1 = none ∧ o.clean2 = none ∧ o.after = o.before ∧ o.recreate = some .alreadyExists := by
   decide
 
-/-- … an ordinary user gets EACCES, i.e. InitializationNotYetFinalized at once, and the half-created service is removed -/
-theorem crash_before_dynamic_config_sized_user_restored : Restored (creatorScenario false (some 13) none) := by decide
+/-- regression (fix 150ae1b): killed between `shm_open(O_CREAT|O_EXCL, 0200)` and `ftruncate` of the DYNAMIC CONFIG; the 0-byte object is
+reported as InitializationNotYetFinalized at once (timeout 0), the half-created service is removed like every other not-yet-finalised one.
+Before the fix `open_impl` retried without any time-out check and every clean-up of the dead node span for ever. -/
+theorem crash_before_dynamic_config_sized_restored :
+    let o := creatorScenario (some 13) none
+    o.dead = true ∧ o.before.dyn = .created ∧ Restored o := by
+  decide
 
 /-- the crash points at which the unchanged code restores a clean, usable system -/
-def cleanPoint (root : Bool) (k : Nat) : Bool :=
-  k ≤ 1 || (6 ≤ k && k ≤ 7) || k == 12 || (k == 13 && !root) || 14 ≤ k
+def cleanPoint (k : Nat) : Bool :=
+  k ≤ 1 || (6 ≤ k && k ≤ 7) || 12 ≤ k
 
 /-- C04 for service creation, strongest true form: for EVERY fuse, if the creator died, the system is restored if and only if the
 crash point is a clean one; at the others exactly what `expected` says is left (`creator_kill_table`) -/
-theorem crash_anywhere_cleanup_restores_partial (root : Bool) (f : Option Nat) :
-    (creatorScenario root f none).dead = true →
-      (Restored (creatorScenario root f none) ↔ ∃ k, crashPoint f = some k ∧ cleanPoint root k = true) := by
+theorem crash_anywhere_cleanup_restores_partial (f : Option Nat) :
+    (creatorScenario f none).dead = true →
+      (Restored (creatorScenario f none) ↔ ∃ k, crashPoint f = some k ∧ cleanPoint k = true) := by
   rw [creator_kill_table]
   cases hf : crashPoint f with
   | none => intro h; simp [expected] at h
@@ -140,36 +137,35 @@ theorem crash_anywhere_cleanup_restores_partial (root : Bool) (f : Option Nat) :
         · cases hf; assumption
         · cases hf
     intro _
-    have : ∀ root, ∀ k, k ≤ createLen → (Restored (expected root (some k)) ↔ cleanPoint root k = true) := by
-      intro root; cases root <;> decide
-    rw [this root k hk]
+    have : ∀ k, k ≤ createLen → (Restored (expected (some k)) ↔ cleanPoint k = true) := by decide
+    rw [this k hk]
     simp
 
 /-- no crash: the survivors leave the living creator's service alone, and the second `create` is refused -/
-theorem no_crash_service_untouched (root : Bool) (f : Option Nat) (h : crashPoint f = none) :
-    let o := creatorScenario root f none
+theorem no_crash_service_untouched (f : Option Nat) (h : crashPoint f = none) :
+    let o := creatorScenario f none
     o.victim = some .ok ∧ o.dead = false ∧ o.clean1 = some .notDead ∧ o.after = allThere ∧ o.recreate = some .alreadyExists := by
   rw [creator_kill_table, h]; simp [expected]
 
 /-! ### second crash: the first cleaner dies inside the clean-up -/
 
-theorem second_crash_bounded : ∀ root, ∀ k, k ≤ createLen → ∀ j, j ≤ fuel →
-    (creatorScenario root (some k) (some j)).after = (creatorScenario root (some k) none).after ∧
-    (creatorScenario root (some k) (some j)).recreate = (creatorScenario root (some k) none).recreate := by
-  intro root; cases root <;> decide +kernel
+theorem second_crash_bounded : ∀ k, k ≤ createLen → ∀ j, j ≤ fuel →
+    (creatorScenario (some k) (some j)).after = (creatorScenario (some k) none).after ∧
+    (creatorScenario (some k) (some j)).recreate = (creatorScenario (some k) none).recreate := by
+  decide +kernel
 
 /-- wherever the first cleaner dies (any fuse), the next survivor's complete clean-up ends in the same state as an undisturbed
 clean-up, and the re-creation has the same result: the service-level clean-up is restartable at every step.
 (The node-level halves are atomic here; their crash points are C04Fs.cleaner_kill_table.) -/
-theorem second_crash_same_result (root : Bool) (k : Nat) (hk : k ≤ createLen) (fc : Option Nat) :
-    (creatorScenario root (some k) fc).after = (creatorScenario root (some k) none).after ∧
-    (creatorScenario root (some k) fc).recreate = (creatorScenario root (some k) none).recreate := by
+theorem second_crash_same_result (k : Nat) (hk : k ≤ createLen) (fc : Option Nat) :
+    (creatorScenario (some k) fc).after = (creatorScenario (some k) none).after ∧
+    (creatorScenario (some k) fc).recreate = (creatorScenario (some k) none).recreate := by
   cases fc with
   | none => exact ⟨rfl, rfl⟩
   | some j =>
     by_cases hj : j ≤ fuel
-    · exact second_crash_bounded root k hk j hj
-    · have : creatorScenario root (some k) (some j) = creatorScenario root (some k) none :=
+    · exact second_crash_bounded k hk j hj
+    · have : creatorScenario (some k) (some j) = creatorScenario (some k) none :=
         scenario_big_cleaner_fuse _ _ _ j false (by omega)
       rw [this]; exact ⟨rfl, rfl⟩
 
@@ -204,23 +200,23 @@ def expectedO : Option Nat → Outcome
     else if k ≤ 22 then ⟨none, true, { base with tag := .final }, some .ok, some .notDead, heldOnly, Left.none, some .ok⟩
     else ⟨some .ok, true, { base with tag := .final, reg := true }, some .ok, some .notDead, heldOnly, Left.none, some .ok⟩
 
-theorem opener_kill_table_bounded : ∀ root, ∀ k, k ≤ fuel → openerScenario root (some k) none = expectedO (crashPointO (some k)) := by
-  intro root; cases root <;> decide +kernel
+theorem opener_kill_table_bounded : ∀ k, k ≤ fuel → openerScenario (some k) none = expectedO (crashPointO (some k)) := by
+  decide +kernel
 
-/-- the table of the opener, for every fuse and both permission regimes (which make no difference here) -/
-theorem opener_kill_table (root : Bool) (f : Option Nat) :
-    openerScenario root f none = expectedO (crashPointO f) := by
+/-- the table of the opener, for every fuse -/
+theorem opener_kill_table (f : Option Nat) :
+    openerScenario f none = expectedO (crashPointO f) := by
   cases f with
-  | none => cases root <;> decide
+  | none => decide
   | some k =>
     by_cases hk : k ≤ fuel
-    · exact opener_kill_table_bounded root k hk
-    · have h1 : openerScenario root (some k) none = openerScenario root none none :=
+    · exact opener_kill_table_bounded k hk
+    · have h1 : openerScenario (some k) none = openerScenario none none :=
         scenario_big_fuse _ _ k none true (by omega)
       have h2 : crashPointO (some k) = none := by
         have : ¬ k ≤ openLen := by simp only [fuel, openLen] at *; omega
         simp [crashPointO, this]
-      rw [h1, h2]; cases root <;> decide
+      rw [h1, h2]; decide
 
 /-- restored after the death of an opener: the clean-up succeeded; tag, node and registration of the victim are gone while the
 holder's service is intact; once the holder has dropped it nothing is left and the name can be created again -/
@@ -231,27 +227,27 @@ instance (o : Outcome) : Decidable (RestoredO o) := by unfold RestoredO; infer_i
 
 /-
 FALSE as stated:
-  theorem opener_crash_anywhere_cleanup_restores (root : Bool) (f : Option Nat) :
-      (openerScenario root f none).dead = true → RestoredO (openerScenario root f none)
+  theorem opener_crash_anywhere_cleanup_restores (f : Option Nat) :
+      (openerScenario f none).dead = true → RestoredO (openerScenario f none)
 -/
 
 /-- refutation: killed inside create_service_tag of `open` — the same defect as crash_in_service_tag_creation_not_restored; the holder's
 service is removed in an orderly way later, the dead node never -/
 theorem opener_crash_in_service_tag_creation_not_restored :
-    ∀ root, ∀ k, k ≤ 17 → 14 ≤ k →
-      let o := openerScenario root (some k) none
+    ∀ k, k ≤ 17 → 14 ≤ k →
+      let o := openerScenario (some k) none
       o.dead = true ∧ ¬ RestoredO o ∧ o.clean1 = some .internalError ∧ o.clean2 = some .internalError ∧
       o.afterDrop = { Left.none with tag := .init, node := true, dir := true } ∧ o.recreate = some .ok := by
-  intro root; cases root <;> decide
+  decide
 
 def cleanPointO (k : Nat) : Bool := k ≤ 13 || 18 ≤ k
 
 /-- C04 for `open`, strongest true form: restored iff the crash point is outside the service-tag creation.  In particular the window
 between the registration of the node id and the return of `open` (k = 23), and the window between the tag and the registration
 (18‥22), are clean: this is what the order "tag first, registration second" buys (seeded fault C04-m1 swaps it). -/
-theorem opener_crash_anywhere_cleanup_restores_partial (root : Bool) (f : Option Nat) :
-    (openerScenario root f none).dead = true →
-      (RestoredO (openerScenario root f none) ↔ ∃ k, crashPointO f = some k ∧ cleanPointO k = true) := by
+theorem opener_crash_anywhere_cleanup_restores_partial (f : Option Nat) :
+    (openerScenario f none).dead = true →
+      (RestoredO (openerScenario f none) ↔ ∃ k, crashPointO f = some k ∧ cleanPointO k = true) := by
   rw [opener_kill_table]
   cases hf : crashPointO f with
   | none => intro h; simp [expectedO] at h
@@ -272,9 +268,9 @@ theorem opener_crash_anywhere_cleanup_restores_partial (root : Bool) (f : Option
 /-- a registered node id never outlives its tag-driven clean-up: whenever the victim died, after the survivors' clean-up its node
 id is not registered in the holder's dynamic config (so the service disappears with its last living user) — also at the unclean
 crash points (there the victim had not registered yet) -/
-theorem dead_opener_never_stays_registered (root : Bool) (f : Option Nat) :
-    (openerScenario root f none).dead = true → (openerScenario root f none).after.reg = false ∧
-      (openerScenario root f none).afterDrop.static = .absent ∧ (openerScenario root f none).recreate = some .ok := by
+theorem dead_opener_never_stays_registered (f : Option Nat) :
+    (openerScenario f none).dead = true → (openerScenario f none).after.reg = false ∧
+      (openerScenario f none).afterDrop.static = .absent ∧ (openerScenario f none).recreate = some .ok := by
   rw [opener_kill_table]
   cases hf : crashPointO f with
   | none => intro h; simp [expectedO] at h
@@ -291,10 +287,10 @@ theorem dead_opener_never_stays_registered (root : Bool) (f : Option Nat) :
 
 /-- for EVERY shared state — any incarnation in the static config, any number of other registered nodes, any progress of the dynamic
 config, whatever earlier cleaners did before they died — in which the victim's node is dead, listed and not being cleaned, its service
-tag is not half-created, the static config is not locked and (uid 0) the dynamic config it names is not an unsized object
-(`Collectable`): a survivor's clean-up running alone reports success and removes the node, its directory and its tag; the victim is no
+tag is not half-created and the static config is not locked (`Collectable`; an unsized dynamic config is no obstacle any more since
+fix 150ae1b): a survivor's clean-up running alone reports success and removes the node, its directory and its tag; the victim is no
 longer registered in the dynamic config (if that still exists); and if the dynamic config is missing, not finalised, or no other node is
-registered, static and dynamic config are gone.  The three excluded conditions are exactly the three refuted crash windows. -/
+registered, static and dynamic config are gone.  The two excluded conditions are exactly the two refuted crash windows. -/
 theorem survivor_cleanup_general (sh : Shared) (pid : Nat) (h : Collectable sh) :
     let r := runSolo fuel sh (mkCleaner pid)
     r.2.cres = some .ok ∧ r.1.tag0 = .absent ∧ r.1.node.present = false ∧ r.1.node.dir = false ∧ r.1.node.lock = none ∧
@@ -309,11 +305,11 @@ example : Collectable (runC fuel {} { inner := mkCreator 0, fuse := some 20 }).1
 
 /-! ### non-vacuity -/
 
-example : (creatorScenario true (some 20) none).dead = true ∧ Restored (creatorScenario true (some 20) none) := by decide
-example : ∃ f, (creatorScenario true f none).dead = true ∧ ¬ Restored (creatorScenario true f none) := ⟨some 9, by decide⟩
-example : cleanPoint true 13 = false ∧ cleanPoint false 13 = true := by decide
-example : (openerScenario true (some 23) none).dead = true ∧ RestoredO (openerScenario true (some 23) none) := by decide
-example : (openerScenario true (some 23) none).before.reg = true := by decide
+example : (creatorScenario (some 20) none).dead = true ∧ Restored (creatorScenario (some 20) none) := by decide
+example : ∃ f, (creatorScenario f none).dead = true ∧ ¬ Restored (creatorScenario f none) := ⟨some 9, by decide⟩
+example : cleanPoint 13 = true ∧ cleanPoint 9 = false ∧ cleanPoint 3 = false := by decide
+example : (openerScenario (some 23) none).dead = true ∧ RestoredO (openerScenario (some 23) none) := by decide
+example : (openerScenario (some 23) none).before.reg = true := by decide
 example : traceSolo fuel {} (mkCreator 0) =
     ["access static", "creat stag", "fchmod stag init", "write stag", "fsync stag", "fchmod stag final", "mkdir services", "creat static",
      "fchmod static init", "write static", "fsync static", "fchmod static final", "creat dyn", "ftruncate dyn", "fstat dyn", "mmap dyn",
